@@ -92,6 +92,10 @@ func NewPreparedStatement(flags *option.Flags, expr parser.StatementPreparation)
 type ReplaceValues struct {
 	Values []parser.QueryExpression
 	Names  map[string]int
+
+	// outer holds the replace values of the statement that contains the
+	// EXECUTE or OPEN statement: placeholders in its USING clause refer to them.
+	outer *ReplaceValues
 }
 
 func NewReplaceValues(replace []parser.ReplaceValue) *ReplaceValues {
